@@ -161,7 +161,7 @@ func c15CheckProve(c c15ProveCase) h.Result {
 		r.Class("entropy-short")
 	}
 	rd := &h.C15Reader{Data: ent, Chunk: c.Chunk}
-	r.Eval(2)
+	r.Eval(4)
 	piR, err := fn.proveR(rd, sk, alpha)
 	if c.Short > 0 {
 		// fewer than the 32 bytes the construction hashes: the only
@@ -174,27 +174,55 @@ func c15CheckProve(c c15ProveCase) h.Result {
 	if err != nil {
 		return r.Fail("ecvrf.ProveWithAddedRandomness"+fn.name+":spurious-error", "chunk=%d: %v", c.Chunk, err).Result()
 	}
-	wantR := ref.VrfProve(c.Seed, pk, c.Alpha, c.Entropy[:32], fn.f)
-	if !bytes.Equal(piR, wantR) {
-		r.Fail("ecvrf.ProveWithAddedRandomness"+fn.name+":not-documented-construction", "seed=%x alpha=%x entropy=%x chunk=%d got=%x want=%x (read %d bytes in %d reads)",
-			[]byte(c.Seed), []byte(c.Alpha), []byte(c.Entropy[:32]), c.Chunk, piR, wantR, rd.Used, rd.Reads)
+	// What is documented (and what the property states) for the randomized
+	// prover: the result is a valid proof for the same (key, alpha) -- decided
+	// here by the reference verifier --, Gamma = x*H as for every RFC 9381
+	// proof, the proof varies with the entropy and beta does not.  HOW the
+	// entropy enters the nonce is not documented, so agreement with a mirror
+	// of the current construction is recorded as a class, not asserted.
+	if len(piR) != ProofSize {
+		return r.Fail("ecvrf.ProveWithAddedRandomness"+fn.name+":bad-proof", "length %d", len(piR)).Result()
+	}
+	if refOK, refBeta, why := ref.VrfVerify(pk, piR, c.Alpha, fn.f); !refOK || !bytes.Equal(refBeta, wantBeta) {
+		r.Fail("ecvrf.ProveWithAddedRandomness"+fn.name+":invalid-proof", "reference verifier: %v (%s): seed=%x alpha=%x entropy=%x pi=%x",
+			refOK, why, []byte(c.Seed), []byte(c.Alpha), []byte(c.Entropy[:32]), piR)
 		return r.Result()
+	}
+	if !bytes.Equal(piR[:32], wantPi[:32]) {
+		r.Fail("ecvrf.ProveWithAddedRandomness"+fn.name+":gamma-not-xH", "Gamma=%x want=%x", piR[:32], wantPi[:32])
 	}
 	if bytes.Equal(piR, pi) {
 		r.Fail("ecvrf.ProveWithAddedRandomness"+fn.name+":entropy-ignored", "proof equals the deterministic one")
 	}
-	if !bytes.Equal(piR[:32], pi[:32]) {
-		r.Fail("ecvrf.ProveWithAddedRandomness"+fn.name+":gamma-depends-on-entropy", "")
+	ent2 := make([]byte, len(c.Entropy))
+	for i := range ent2 {
+		ent2[i] = ^c.Entropy[i]
 	}
-	okr, betaR := fn.verify(pk, piR, alpha)
-	if !okr {
-		r.Fail("ecvrf.Verify"+fn.name+":randomized-proof-rejected", "seed=%x alpha=%x pi=%x", []byte(c.Seed), []byte(c.Alpha), piR)
-	} else if !bytes.Equal(betaR, wantBeta) {
-		// uniqueness: a second verifying proof for the same (key, alpha)
-		r.Fail("ecvrf.Verify"+fn.name+":beta-not-unique", "randomized proof gives beta=%x, deterministic %x", betaR, wantBeta)
+	piR2, err := fn.proveR(&h.C15Reader{Data: ent2, Chunk: c.Chunk}, sk, alpha)
+	if err != nil {
+		return r.Fail("ecvrf.ProveWithAddedRandomness"+fn.name+":spurious-error", "chunk=%d: %v", c.Chunk, err).Result()
 	}
-	if pthR, err := ProofToHash(piR); err != nil || !bytes.Equal(pthR, wantBeta) {
-		r.Fail("ecvrf.ProofToHash:beta-not-unique", "randomized proof: got=%x err=%v want=%x", pthR, err, wantBeta)
+	if bytes.Equal(piR2, piR) {
+		r.Fail("ecvrf.ProveWithAddedRandomness"+fn.name+":entropy-ignored", "two entropy streams differing in every byte give the same proof %x", piR)
+	}
+	for _, p := range [][]byte{piR, piR2} {
+		okr, betaR := fn.verify(pk, p, alpha)
+		if !okr {
+			r.Fail("ecvrf.Verify"+fn.name+":randomized-proof-rejected", "seed=%x alpha=%x pi=%x", []byte(c.Seed), []byte(c.Alpha), p)
+		} else if !bytes.Equal(betaR, wantBeta) {
+			// uniqueness: another verifying proof for the same (key, alpha)
+			r.Fail("ecvrf.Verify"+fn.name+":beta-not-unique", "randomized proof gives beta=%x, deterministic %x", betaR, wantBeta)
+		}
+		if pthR, err := ProofToHash(p); err != nil || !bytes.Equal(pthR, wantBeta) {
+			r.Fail("ecvrf.ProofToHash:beta-not-unique", "randomized proof: got=%x err=%v want=%x", pthR, err, wantBeta)
+		}
+	}
+	if c.Chunk == 0 {
+		if bytes.Equal(piR, ref.VrfProve(c.Seed, pk, c.Alpha, c.Entropy[:32], fn.f)) {
+			r.Class("hedged:equals-mirror-of-current-construction")
+		} else {
+			r.Class("hedged:differs-from-mirror-of-current-construction")
+		}
 	}
 	return r.Result()
 }
